@@ -24,4 +24,14 @@ def rangeIter (cfg : Cfg) (env : Env) (stop : Date) (stepUs : Int) (incl : Bool)
         | .ok l => .ok (cur :: l)
     else .ok []
 
+/-! ### a table indexed by dates
+
+The tabulated points of an interpolator (`DatedInterp.dates`), a memo of earlier requests, the maneuvers of an orbit: a
+list of dated values consulted with a request.  `nodeLookup key tbl q` is the Python idiom `{key(node): value}.get(key(q))`
+(first node wins).  Which `key` is used decides whether the answer depends on the label: see `C04.nodeLookup_by_instant`
+(key = what `Date.__hash__` / `__eq__` / `_mjd` see) and `C04W.reading_key_confuses_labels` (key = `.datetime`). -/
+
+def nodeLookup {κ β : Type} [DecidableEq κ] (key : Date → κ) (tbl : List (Date × β)) (q : Date) : Option β :=
+  (tbl.find? (fun n => decide (key n.1 = key q))).map (fun n => n.2)
+
 end BeyondVerif.Date
